@@ -933,6 +933,7 @@ def check_C11(ctx):
 
 def check_C12(ctx):
     facts = prepare(ctx, race=True)
+    broken12 = None
     if not facts["prop_ok"]:
         # which pairs of accesses break the discipline?
         rc, out = coq_query(PRINT_PAIRS.replace("KMIP.Tables.", "KMIP.Tables KMIP.Races.") % "races gen_accesses")
@@ -943,7 +944,15 @@ def check_C12(ctx):
                                              "functions": fn, "field": fld,
                                              "how_to_see": "rows of gen_accesses (coq/theories/Generated.v) for this field; classes and edges in coq/theories/Races.v"})
         else:
-            ctx.violation("theorem", theorem_broken(ctx, facts, "Properties/C12.v no longer checks"), found_input=False)
+            # e.g. C12_caller_objects_not_written: which assignments go through a pointer held in a field of Server / Client?
+            broken12 = theorem_broken(ctx, facts, "Properties/C12.v no longer checks")
+            try:
+                g = open(os.path.join(core.COQ, "theories", "Generated.v")).read()
+                m = re.search(r"Definition gen_deep_writes[^\n]*:= \[(.*)\]\.", g)
+                if m and m.group(1).strip():
+                    broken12["assignments_through_pointer_fields (function, receiver, field, target)"] = m.group(1)
+            except Exception:
+                pass
     if not facts.get("harness_race_ok"):
         ctx.violation("harness-build", {"what": "race-enabled harness does not build", "log": tail(facts.get("harness_race_log", ""))}, found_input=False)
         return ctx.finish()
@@ -965,6 +974,8 @@ def check_C12(ctx):
         ctx.cov["traces_validated_against_impl"] = rep["evaluations"]
         for v in rep["violations"][:3]:
             ctx.violation(v.get("kind", "race"), v)
+    if broken12 and not ctx.violations:
+        ctx.violation("theorem", broken12, found_input=False)
     ctx.assumptions += [
         "partial: the theorem covers a lockset / happens-before discipline over SYNTACTIC accesses to Server fields (regenerated table) with hand-fixed thread classes and edges (Races.v), the WaitGroup protocol of the interleaving model (Shutdown.v) and 'no package state is written'; the Go memory model, aliasing through values reachable from handler arguments, and interleavings are not modelled",
         "the race detector only sees the interleavings that happened in this run",
